@@ -135,7 +135,10 @@ pub fn run(t: &[&str]) -> Option<String> {
 // of type <ty>.
 // The k-th call of the history (0-based over all steps) owns channel k.
 // Result: one record per step, joined by " / ":
-//   r=<result>,..|ev=<ch>:<ev>.<ev>;..|gb=<hex name>,..|x=<0|1 daemon thread ended in this step>[|dead=panicked|stuck]
+//   r=<result>,..|ev=<ch>:<ev>.<ev>;..|gb=<hex name>,..|an=<hex name>,..|x=<0|1 daemon thread ended in this step>[|dead=panicked|stuck]
+// an: own services announced in the step (SRV owner names with a real TTL in responses sent);
+//     not predicted by the model but handed to it as environment input (probing and the
+//     registry are not part of the C14 model)
 // results: Ok | Msg | Again | DaemonShutdown | Other | PANIC
 // events (C14-relevant projection): Started (first SearchStarted of a channel only), Stopped,
 //   Found (ServiceFound), Timeout, Running, Shutdown, UnregOK, UnregNotFound, Metrics, closed
@@ -310,19 +313,31 @@ fn drain(chans: &mut Vec<(usize, Ch, bool)>, snapshot: bool) -> Vec<String> {
     out
 }
 
-fn goodbyes(sim: &vh::SimDaemon) -> Vec<String> {
-    let mut v = Vec::new();
+/// (goodbyes, announcements) of one step: owner names (lower-cased, hex) of the SRV records
+/// in the responses sent, with TTL 0 (read back as 1) resp. with a real TTL.
+fn goodbyes_and_announcements(sim: &vh::SimDaemon) -> (Vec<String>, Vec<String>) {
+    let mut gb = Vec::new();
+    let mut an = Vec::new();
     for e in sim.take_egress() {
         if let Ok(m) = vh::decode(e.data.clone(), 2) {
+            if m.flags & 0x8000 == 0 {
+                continue;
+            }
             for a in m.answers.iter() {
-                if a.ty == 33 && a.ttl <= 1 {
-                    v.push(hex(a.name.to_lowercase().as_bytes()));
+                if a.ty == 33 {
+                    let n = hex(a.name.to_lowercase().as_bytes());
+                    if a.ttl <= 1 {
+                        gb.push(n);
+                    } else if !an.contains(&n) {
+                        an.push(n);
+                    }
                 }
             }
         }
     }
-    v.sort();
-    v
+    gb.sort();
+    an.sort();
+    (gb, an)
 }
 
 const WALL_MS: u64 = 20000;
@@ -404,7 +419,8 @@ fn c14(spec: &str) -> String {
             }
         }
         // goodbyes are part of the observation only in the step in which the daemon ends
-        let gb = if exited { goodbyes(&sim) } else { let _ = sim.take_egress(); Vec::new() };
+        let (gb_all, an) = goodbyes_and_announcements(&sim);
+        let gb = if exited { gb_all } else { Vec::new() };
         // a client blocked behind a stuck daemon reads nothing any more
         // (reading a listener would free the daemon thread blocked in `send`)
         if dead == "|dead=stuck" {
@@ -412,10 +428,11 @@ fn c14(spec: &str) -> String {
         }
         let ev = if was_stuck { Vec::new() } else { drain(&mut chans, false) };
         recs.push(format!(
-            "r={}|ev={}|gb={}|x={}{}",
+            "r={}|ev={}|gb={}|an={}|x={}{}",
             if rs.is_empty() { "-".to_string() } else { rs.join(",") },
             if ev.is_empty() { "-".to_string() } else { ev.join(";") },
             if gb.is_empty() { "-".to_string() } else { gb.join(",") },
+            if an.is_empty() { "-".to_string() } else { an.join(",") },
             if exited { 1 } else { 0 },
             dead
         ));
